@@ -77,7 +77,7 @@ func checkC03(p *core.Program, r *core.Report) {
 	const R1 = "C03.R1 alphabet-agreement"
 	const R2 = "C03.R2 trusted-implies-ready"
 	const R3 = "C03.R3 progress-graph-acyclic-setup-once"
-	r.Explanation = "C03 (two endpoints agree): the agreement/liveness statement over schedules of two processes is not static. Decided necessary conditions: (R1) alphabet agreement between the two roles of the same code: every discriminating wire constant package ship emits (hello phase, protocol handshake type, format, pin state, close phase) is one its own handlers compare against, the version numbers sent equal the ones demanded, every model message type sent is a type some handler decodes, and the string literals that recognise accessMethodsRequest / accessMethods are exactly the JSON member names of the model structs that produce them; (R2) the HelloState->ReadyInit decision has a positive edge for each of the three trust predicates, and the approve entry leads PendingListen->ReadyInit->ReadyListen->HelloOk; (R3) the extracted progress graph (non-terminal states) is acyclic for both roles, so every phase is passed at most once, the setup callback sits on the single Approved->Complete step and the SHIP-ID report always goes on to approve. Not decided: agreement under delays, in-flight FIFO messages and timer interleavings."
+	r.Explanation = "C03 (two endpoints agree): the agreement/liveness statement over schedules of two processes is not static. Decided necessary conditions: (R1) alphabet agreement between the two roles of the same code: every discriminating wire constant package ship emits (hello phase, protocol handshake type, format, pin state, close phase) is one its own handlers compare against, the version numbers sent equal the ones demanded, every model message type sent is a type some handler decodes, and the string literals that recognise accessMethodsRequest / accessMethods are exactly the JSON member names of the model structs that produce them; (R2) the HelloState->ReadyInit decision has a positive edge for each of the three trust predicates, and the approve entry leads PendingListen->ReadyInit->ReadyListen (sends its ready); (R3) the extracted progress graph (non-terminal states) is acyclic for both roles, so every phase is passed at most once, the setup callback sits on the single Approved->Complete step and the SHIP-ID report always goes on to approve; (R4) a side that gives up closes the connection; (R5) the hello phase is only left towards HELLO_OK by the handler of a received ready hello. Not decided: agreement under delays, in-flight FIFO messages and timer interleavings."
 	r.Rule(R1, "sent constants ⊆ compared constants per wire enum; sent version == demanded version; sent model types ⊆ decoded model types; access-method literals == JSON tags")
 	r.Rule(R2, "each trust predicate has a positive edge straight to the ReadyInit setter; approve entry edges exist")
 	r.Rule(R3, "extracted automaton without terminal states is a DAG per role; setup only on Approved->Complete")
@@ -163,7 +163,7 @@ func checkC03(p *core.Program, r *core.Report) {
 	if m := p.Method("ship", "ShipConnection", "ApprovePendingHandshake"); m != nil {
 		approve = p.FnName(m)
 	}
-	need := [][2]string{{"SmeHelloStatePendingListen", "SmeHelloStateReadyInit"}, {"SmeHelloStateReadyInit", "SmeHelloStateReadyListen"}, {"SmeHelloStateReadyListen", "SmeHelloStateOk"}}
+	need := [][2]string{{"SmeHelloStatePendingListen", "SmeHelloStateReadyInit"}, {"SmeHelloStateReadyInit", "SmeHelloStateReadyListen"}}
 	for _, nd := range need {
 		found := false
 		for _, e := range f.edges {
@@ -261,6 +261,49 @@ func checkC03(p *core.Program, r *core.Report) {
 			r.Fail(R3, key, p.Pos(e.pos), "the remote device is set up while the connection is still in state(s) "+strings.Join(keysOf(st), ",")+": a timer of that phase can end the handshake in error while this side goes on to complete")
 		}
 	}
+	// R5: HELLO_OK needs the remote side's "ready"
+	const R5 = "C03.R5 hello-ok-needs-remote-ready"
+	r.Rule(R5, "every transition into SmeHelloStateOk is made by a handler that decoded a received connectionHello (phase ready); entering the protocol handshake while the peer's hello is still in flight makes the late hello hit the protocol-handshake state and ends both sides")
+	decodesHello := map[string]bool{}
+	for _, fn := range p.FuncsOf("ship") {
+		core.EachInstr(fn, func(in ssa.Instruction) {
+			c, ok := in.(*ssa.Call)
+			if !ok {
+				return
+			}
+			for _, a := range c.Call.Args {
+				if mi, ok := a.(*ssa.MakeInterface); ok {
+					if n := core.NamedOf(mi.X.Type()); n != nil && n.Obj().Name() == "ConnectionHello" && n.Obj().Pkg() != nil && n.Obj().Pkg().Name() == "model" {
+						if _, isPtr := mi.X.Type().(*types.Pointer); isPtr {
+							decodesHello[p.FnName(fn)] = true
+						}
+					}
+				}
+			}
+		})
+	}
+	nok := 0
+	seenR5 := map[string]bool{}
+	for _, e := range f.sortedEdges() {
+		if f.stateName(e.to) != "SmeHelloStateOk" {
+			continue
+		}
+		key := fmt.Sprintf("edge %s->SmeHelloStateOk in %s", f.stateName(e.from), shortFn(e.origin))
+		if seenR5[key] {
+			continue
+		}
+		seenR5[key] = true
+		if decodesHello[e.origin] {
+			nok++
+			r.OK(R5, key, p.Pos(e.pos), "set by the handler of a received hello message")
+		} else {
+			r.Fail(R5, key, p.Pos(e.pos), "the connection moves to SmeHelloStateOk (and on into the protocol handshake) without having received the peer's ready hello on this path: a hello of the peer that is still in flight then arrives in the protocol-handshake state, is rejected, and both sides end although trust was granted", "history: server PendingListen, client's first ready (or its answer to a prolongation request) in flight; user approves; server sends ready, enters ServerListenProposal; the in-flight hello arrives -> 'Invalid protocol handshake request' -> Error on the server, transport closed, client ends too")
+		}
+	}
+	if nok == 0 {
+		r.Fail(R5, "message-driven edge into SmeHelloStateOk", "", "no hello handler sets SmeHelloStateOk")
+	}
+
 	const R4 = "C03.R4 giving-up-closes"
 	r.Rule(R4, "every path that enters a terminal state runs the close-once or spawns a goroutine that always runs it (same rule as C04.R4)")
 	fsmTerminalRules(fr, r, "", R4)
